@@ -47,29 +47,38 @@ func (g *graph) processWithThresholds(ctx context.Context, e *Event, threshold, 
 			// We would just process the node and then drop the status, and no
 			// other linked nodes would be processed.
 			case <-ctx.Done():
+				verifPoint("rangeStop", "", pipeline.rootNode.nodeID)
 				return false
 			default:
 			}
 
+			verifPoint("rangeStart", "", pipeline.rootNode.nodeID)
 			wg.Add(1)
 			g.doProcess(ctx, pipeline.rootNode, e, statusChan, &wg)
 			return true
 		})
+		verifPoint("rangeEnd", "", "")
 		wg.Wait()
+		verifPoint("waited", "", "")
 		close(statusChan)
+		verifPoint("closed", "", "")
 	}()
 	var status Status
 	var done bool
 	for !done {
+		verifPoint("collect", "", "")
 		select {
 		case <-ctx.Done():
+			verifPoint("collectCtx", "", "")
 			done = true
 		case s, ok := <-statusChan:
 			if ok {
+				verifPoint("collectRecv", "", "")
 				status.Warnings = append(status.Warnings, s.Warnings...)
 				status.complete = append(status.complete, s.complete...)
 				status.completeSinks = append(status.completeSinks, s.completeSinks...)
 			} else {
+				verifPoint("collectClosed", "", "")
 				done = true
 			}
 		}
@@ -89,13 +98,19 @@ func (g *graph) processWithThresholds(ctx context.Context, e *Event, threshold, 
 //     the sink node's ID
 func (g *graph) doProcess(ctx context.Context, node *linkedNode, e *Event, statusChan chan Status, wg *sync.WaitGroup) {
 	defer wg.Done()
+	defer verifPoint("done", "", node.nodeID)
 
 	// Process the current Node
+	verifPoint("call", "", node.nodeID)
 	e, err := node.node.Process(ctx, e)
+	verifPoint("return", "", node.nodeID)
 	if err != nil {
+		verifPoint("sendTry", "", node.nodeID)
 		select {
 		case <-ctx.Done():
+			verifPoint("sendAbort", "", node.nodeID)
 		case statusChan <- Status{Warnings: []error{err}}:
+			verifPoint("sent", "", node.nodeID)
 		}
 		return
 	}
@@ -107,9 +122,12 @@ func (g *graph) doProcess(ctx context.Context, node *linkedNode, e *Event, statu
 
 	// If the Event is nil, it has been filtered out and we are done.
 	if e == nil {
+		verifPoint("sendTry", "", node.nodeID)
 		select {
 		case <-ctx.Done():
+			verifPoint("sendAbort", "", node.nodeID)
 		case statusChan <- completeStatus:
+			verifPoint("sent", "", node.nodeID)
 		}
 		return
 	}
@@ -123,13 +141,17 @@ func (g *graph) doProcess(ctx context.Context, node *linkedNode, e *Event, statu
 		}
 
 		for _, child := range node.next {
+			verifPoint("spawn", "", child.nodeID)
 			wg.Add(1)
 			go g.doProcess(ctx, child, e, statusChan, wg)
 		}
 	} else {
+		verifPoint("sendTry", "", node.nodeID)
 		select {
 		case <-ctx.Done():
+			verifPoint("sendAbort", "", node.nodeID)
 		case statusChan <- completeStatus:
+			verifPoint("sent", "", node.nodeID)
 		}
 	}
 }
